@@ -25,8 +25,10 @@ CASE_SECONDS = 10.0
 
 def mk_candle(row: Dict) -> Candle:
     # "us": a fraction of a second on the timestamp (the library buckets by whole seconds)
-    return Candle(row["open"], row["high"], row["low"], row["close"], row["volume"],
-                  timestamp=(to_dt(row["ts"]) + timedelta(microseconds=row.get("us", 0))) if row.get("ts") is not None else None)
+    ts = (to_dt(row["ts"]) + timedelta(microseconds=row.get("us", 0))) if row.get("ts") is not None else None
+    if ts is not None and row.get("iso"):
+        ts = ts.isoformat()          # "iso": the timestamp handed over as an ISO string (naive, like the datetime)
+    return Candle(row["open"], row["high"], row["low"], row["close"], row["volume"], timestamp=ts)
 
 
 def mk_candles(rows: List[Dict]) -> List[Candle]:
